@@ -368,6 +368,8 @@ def c15_jobs(tier):
             if i == j:
                 continue
             jobs.append(job(EAP, "HMacReceiverForeignOrder", [i, j, 32]))
+    for m1, m2 in ((1 | 4, 2), (64, 16 | 32), (2, 1 | 64), (0, 0), (127, 4)):
+        jobs.append(job(EAP, "HMacReceiverReuse", [m1, m2, 32]))
     return jobs
 
 
@@ -610,6 +612,9 @@ PROPS = {
                 outside="longer data, more than two payloads, larger nested shapes", assumptions=CRYPTO_ASSUME),
     "C03": dict(jobs=c03_jobs, claim="For every message shape within the bounds the solver shows Decode(Encode(m)) == m field by field for all field values at once (all 2^16 attribute types, all SPI contents, all ports and addresses), which pinned vectors cannot cover.", bounds=lambda t: "every payload kind alone at the %s shape set of the generator, the empty message, %s ordered pairs at minimal shape, EAP methods, EAP-AKA' attribute subsets of size %s" % (("quick", "15", "<= 2") if t == "quick" else ("thorough", "225", "<= 7")),
                 outside="opaque data longer than 24 octets, more than 2 payloads, more than 2 proposals / 3 transforms / 3 selectors"),
-    "C04": dict(jobs=c04_jobs, claim="Every decoding entry point is executed symbolically on an arbitrary buffer of every length up to the bound with symbolic spare capacity; every index, slice, make and nil obligation and the no-over-read obligation (no re-slice of the input beyond its length) is discharged by the solver for all contents, and loops carry unwinding assertions / a decreasing variant.", bounds=lambda t: "payload body decoders on every buffer length 0..%d (SA 0..%d), arbitrary content, arbitrary spare capacity 0..8" % ((40, 24) if t == "quick" else (64, 32)),
-                outside="longer buffers"),
+    "C04": dict(jobs=c04_jobs, claim="Every decoding entry point (ParseHeader, IKEMessage.Decode, the payload chain walker with a symbolic first type, each of the 16 payload body decoders, EAP.Unmarshal and the five EAP method bodies, DecodeDecrypt with and without keys and with the header nil or parsed from the same bytes, IKECrypto.Decrypt) is executed symbolically on an arbitrary buffer of every length up to the bound, with symbolic spare capacity behind it; every index, slice, make, nil and type-assertion obligation, the no-over-read obligation (no re-slice of the input beyond its length), 'input unchanged afterwards' and, per input-consuming loop, either an unwinding assertion (unrolled) or a strictly decreasing variant (one iteration from an arbitrary loop-head state: cut mode) is discharged by the solver for all contents.",
+                bounds=lambda t: ("cut mode (chain walker, SA proposals / transforms, TS selectors, CP attributes, EAP-AKA' attributes): every length 0..%d; loops unrolled: bodies 0..%d (SA 0..%d, TS/CP 0..%d, EAP / EAP-AKA' 0..%d), header 0..40, whole message 0..%d, chain 0..%d; cipher 0..%d for 3 key sizes; unprotection with keys: Encrypted payload spanning the datagram 0..%d octets (%s suites, both roles, inner chain in cut mode), arbitrary chains 0..36; without keys 0..36 unrolled and 28..%d cut"
+                                  % ((64, 32, 20, 24, 12, 36, 8, 64, 96, 3, 92) if t == "quick" else (160, 64, 26, 40, 16, 38, 10, 96, 128, 9, 188))),
+                outside="longer buffers (the property's 65535): in cut mode the claim for long chains rests on the induction argument of DESIGN.md 2.3 (first-arrival states range over all well-formed loop-head states), un-cut runs at small sizes cross-check it",
+                assumptions=CRYPTO_ASSUME),
 }
